@@ -82,8 +82,9 @@ def classify(case, idx, impl_out, model_out):
 
 
 def make_line_oracle():
-    """evaluated on the implementation's answers alone: a loan that is refused for lack of memory while the
-    client is inside its limits (per case: number of pending responses the implementation confirmed)"""
+    """evaluated on the implementation's answers alone (per case: the pending responses and the outstanding
+    loans the implementation confirmed): a loan refused for lack of memory while the client is inside its
+    limits; a loan refused with ExceedsMaxLoans while fewer loans than the limit are outstanding"""
     state = {}
 
     def f(case, idx, base):
@@ -91,22 +92,41 @@ def make_line_oracle():
         if op[0] == "new":
             state.clear()
             state["max"] = max(1, int(op[4]))
+            state["L"] = max(1, int(op[10]))
             state["pend"] = {}
             state["cmax"] = {}
+            state["ml"] = {}          # server -> max_loaned_responses_per_request
+            state["rl"] = {}          # (server, loan label) -> active request label
+            state["ql"] = {}          # client -> outstanding request loans
             return None
         if "pend" not in state:
             return None
         if op[0] == "cclient" and base == "ok":
             state["cmax"][op[1]] = state["max"] if op[2] == "-" else max(1, int(op[2]))
-        if op[0] == "send" and base.startswith("ok:"):
-            state["pend"].setdefault(op[1], set()).add(op[2])
+        if op[0] == "cserver" and base == "ok":
+            state["ml"][op[1]] = 2 if op[2] == "-" else max(1, int(op[2]))
+        if op[0] in ("send", "qsend") and base.startswith("ok:"):
+            state["pend"].setdefault(op[1], set()).add(op[2] if op[0] == "send" else op[3])
         if op[0] == "dpending" and base == "ok":
             state["pend"].get(op[1], set()).discard(op[2])
-        if op[0] == "respond" and base == "err:loan:ExceedsMaxLoans":
-            # loan and send of a response are one call here: no loan is outstanding between calls, so this answer
-            # means that a loan counter got stuck (fixed by 1fb407e: must not come back)
-            return "line:loan-counter-stuck-after-failed-allocation"
-        if op[0] == "send" and base == "err:loan:OutOfMemory":
+        if op[0] == "qloan" and base == "ok":
+            state["ql"].setdefault(op[1], set()).add(op[2])
+        if op[0] == "qsend" and base not in ("none", "dup") or op[0] == "qdrop" and base == "ok":
+            state["ql"].get(op[1], set()).discard(op[2])
+        if op[0] == "rloan" and base == "ok":
+            state["rl"][(op[1], op[3])] = op[2]
+        if op[0] in ("rsend", "rdrop") and base != "none":
+            state["rl"].pop((op[1], op[2]), None)
+        if op[0] in ("respond", "rloan") and base == "err:loan:ExceedsMaxLoans":
+            # fewer response loans of this active request outstanding than the server allows: a loan counter got
+            # stuck (fixed by 1fb407e: must not come back)
+            out = sum(1 for (s, _), a in state["rl"].items() if s == op[1] and a == op[2])
+            if out < state["ml"].get(op[1], 2):
+                return "line:loan-counter-stuck-after-failed-allocation"
+        if op[0] in ("send", "qloan") and base == "err:loan:ExceedsMaxLoans":
+            if len(state["ql"].get(op[1], ())) < state["L"]:
+                return "line:request-loan-refused-below-max-loaned-requests"
+        if op[0] in ("send", "qloan") and base == "err:loan:OutOfMemory":
             if len(state["pend"].get(op[1], ())) < state["cmax"].get(op[1], state["max"]):
                 return "line:loan-out-of-memory-within-limits"
         return None
@@ -145,6 +165,76 @@ def regression_case(ctx, name, ops, expect, key, what):
     if not good:
         ctx.violation(key, what, dict(engine="seqdiff", component="reqres", ops=ops, impl=impl, model=model))
     ctx.log(f"[regression] {name}: {'as repaired' if good else 'DEFECT IS BACK'} on the implementation, model {'agrees' if agree else 'DIFFERS'}")
+
+
+def wrap_history(ms, act, cmax, loans, answer, probe_first):
+    """channel-id wrap-around with the first active request still held (see `wrap` generator): the request sent
+    last reuses channel 0 of the client; returns (ops, expectations)"""
+    channels = ms * 2 * cmax + loans
+    ops = [f"new local 1 {ms} {act} 1 1 0 0 0 {loans} 1 1", "cserver 0 -", f"cclient 0 {'-' if cmax == act else cmax}",
+           "send 0 0 1", "recvreq 0 0", "dpending 0 0"]
+    for r in range(1, channels):
+        ops += [f"send 0 {r} {r + 1}", f"dpending 0 {r}"]
+    rn = channels
+    ops.append(f"send 0 {rn} {rn + 1}")
+    exp = {}
+    if probe_first:
+        exp[len(ops)] = "true"; ops.append(f"connected 0 {rn}")
+    if answer:
+        # the old active request answers: its pending response is gone, nothing may arrive at the new request
+        exp[len(ops)] = "ok"; ops.append("respond 0 0 100")
+        exp[len(ops)] = "none"; ops.append(f"recvresp 0 {rn}")
+        exp[len(ops)] = "false"; ops.append("aconnected 0 0")
+    exp[len(ops)] = "ok"; ops.append("dactive 0 0")
+    exp[len(ops)] = "true"; ops.append(f"connected 0 {rn}")
+    ops += [f"recvreq 0 {rn}", f"respond 0 {rn} 200"]
+    exp[len(ops)] = "some:0:200"; ops.append(f"recvresp 0 {rn}")
+    return ops, exp
+
+
+def preloan_resp_history(buf, bor, k):
+    """k responses loaned up front for one active request, sent one by one, each received and released"""
+    ops = [f"new local 1 1 1 {buf} {bor} 0 0 0 1 2 2", f"cserver 0 {k}", "cclient 0 -", "send 0 0 1", "recvreq 0 0"]
+    ops += [f"rloan 0 0 {l}" for l in range(k)]
+    exp = {}
+    for l in range(k):
+        ops.append(f"rsend 0 {l} {10 + l}")
+        exp[len(ops)] = f"some:0:{10 + l}"; ops.append("recvresp 0 0")
+        exp[len(ops)] = "ok"; ops.append("dresp 0 0")
+    exp[len(ops)] = "none"; ops.append("recvresp 0 0")
+    ops.append("respond 0 0 99")
+    exp[len(ops)] = "some:0:99"; ops.append("recvresp 0 0")
+    return ops, exp
+
+
+def preloan_req_history(act, k):
+    """k requests loaned up front, sent one by one, each received, released and its pending response dropped"""
+    ops = [f"new local 1 1 {act} 1 1 0 0 0 {k} 2 2", "cserver 0 -", "cclient 0 -"]
+    ops += [f"qloan 0 {l}" for l in range(k)]
+    exp = {}
+    for l in range(k):
+        exp[len(ops)] = "ok:1"; ops.append(f"qsend 0 {l} {l} {10 + l}")
+        exp[len(ops)] = f"some:0:{10 + l}"; ops.append(f"recvreq 0 {l}")
+        ops += [f"dactive 0 {l}", f"dpending 0 {l}"]
+    exp[len(ops)] = "none"; ops.append(f"recvreq 0 {k}")
+    exp[len(ops)] = "ok:1"; ops.append("send 0 90 99")
+    exp[len(ops)] = "some:0:99"; ops.append("recvreq 0 90")
+    return ops, exp
+
+
+FIXED = (
+    [(f"channel-wrap-ms{ms}-a{act}-c{cmax}-l{loans}{'-answered' if ans else ''}{'-probed' if pf else ''}", wrap_history(ms, act, cmax, loans, ans, pf))
+     for (ms, act, cmax, loans) in ((1, 1, 1, 1), (1, 1, 1, 2), (2, 1, 1, 1), (1, 2, 1, 1), (1, 2, 2, 1)) for ans in (False, True) for pf in (True,)] +
+    [(f"responses-loaned-up-front-b{b}-r{r}-k{k}", preloan_resp_history(b, r, k)) for (b, r, k) in ((1, 1, 4), (1, 1, 5), (2, 1, 5), (1, 2, 5))] +
+    [(f"requests-loaned-up-front-a{a}-k{k}", preloan_req_history(a, k)) for (a, k) in ((1, 4), (1, 5), (2, 6))])
+
+
+def fixed_histories(ctx):
+    """fixed scenarios of history classes that random generation reaches rarely; every line is compared with the
+    model and the lines that carry the point of the scenario with the expected answer"""
+    for name, (ops, exp) in FIXED:
+        regression_case(ctx, name, ops, exp, f"reqres.fixed:{name}", f"fixed scenario `{name}`: a line does not read as expected "
+                        + "; ".join(f"[{i}] {ops[i]} => {o}" for i, o in sorted(exp.items())))
 
 
 def cleanup_leftovers():
@@ -216,6 +306,16 @@ def run(ctx):
                             classify, label="reqres.churn", line_oracle=lo, shrink=shrink)
         core.diff_component(ctx, "reqres", ["gen", "--seed", ctx.seed + 13, "--cases", 100 if quick else 400, "--len", 60 if quick else 100, "ipc"],
                             classify, label="reqres.ipc", line_oracle=lo, shrink=shrink)
+        # samples loaned up front and sent later (two-step calls), channel-id wrap-around under a held active request
+        core.diff_component(ctx, "reqres", ["gen", "--seed", ctx.seed + 17, "--cases", 400 if quick else 4000, "--len", 100 if quick else 160, "loans"],
+                            classify, label="reqres.loans", line_oracle=lo, shrink=shrink)
+        core.diff_component(ctx, "reqres", ["gen", "--seed", ctx.seed + 19, "--cases", 300 if quick else 3000, "preloan"],
+                            classify, label="reqres.preloan", line_oracle=lo, shrink=shrink)
+        core.diff_component(ctx, "reqres", ["gen", "--seed", ctx.seed + 23, "--cases", 400 if quick else 4000, "wrap"],
+                            classify, label="reqres.wrap", line_oracle=lo, shrink=shrink)
+        core.diff_component(ctx, "reqres", ["gen", "--seed", ctx.seed + 29, "--cases", 60 if quick else 400, "wrap", "ipc"],
+                            classify, label="reqres.wrap-ipc", line_oracle=lo, shrink=shrink)
+        fixed_histories(ctx)
         shrink_new(ctx)
         replay_known(ctx, "cross-client-routing", CEX_ROUTING, 10, "response delivered to a request of another client",
                      "reqres.replay:oracle:response-delivered-to-a-request-of-another-client", LOCAL_KNOWN[0]["what"])
